@@ -13,8 +13,17 @@ Oracle clauses (DESIGN section 4 C17; every clause cites the sentence of the sta
   N2  "compact peer addresses round-trip"
   N3  "any datagram that is not a well-formed protocol message is dropped with the sender's failure
       recorded: it never raises out of the handler and never changes the routing table or the
-      stored announcements"
-  N4  well-formed (or arguable) datagrams: only "does not raise" (effects belong to C12)
+      stored announcements".  Per malformed datagram:
+        - the handler RETURNS (SIGALRM watchdog, confirmed by a line-bounded traced run that proves a loop
+          state repeats: key C17/hang/...) and does not raise (key C17/escape/<Exc>@<innermost lbry function>);
+        - PeerManager's failure table entry for the SENDER's address changed (C17/N3/failure-not-recorded/<class>:
+          decoder-refused|decoder-accepted; .../recorded-for-claimed-contact-not-sender when it was booked on the
+          contact whose node id the datagram merely claims);
+        - buckets + ranges + contacts, data store, completed blobs, pending add/remove sets identical before/after
+          (C17/N3/state-changed/<class>:<decoder>:<component>; a tcp port of an existing contact/announcement
+          rewritten by a datagram that was then refused: .../tcp-port-updated-by-refused-datagram); ping queue logged;
+        - once per batch the maintenance task runs (virtual time) and table/store are compared again.
+  N4  well-formed (or arguable) datagrams: only "returns, does not raise" (effects belong to C12)
 
 What counts as NOT well-formed (independent recogniser `classify`, no lbry code):
   * not a complete bencoded value (truncated, bad token ...) or not a dictionary;
@@ -72,7 +81,8 @@ REQUIRED_HITS = [
     'N3.malformed_fed', 'N3.no_raise_held', 'N3.failure_recorded_checked', 'N3.state_unchanged_checked',
     'N3.maintenance_checked', 'N3.live_token_malformed_store_fed', 'N4.fed',
     'fam.trunc', 'fam.mut1', 'fam.mutn', 'fam.nest', 'fam.retype', 'fam.huge', 'fam.rand', 'fam.valid', 'fam.replies',
-    'sender.fresh', 'sender.contact', 'sender.spoof', 'tokens.live', 'tokens.grace', 'ref.self_check',
+    'sender.fresh', 'sender.contact', 'sender.spoof', 'tokens.live', 'tokens.grace', 'ref.self_check', 'fam.fixed',
+    'N3.failure_recorded_held', 'N3.state_unchanged_held', 'N4.no_raise_held',
 ]
 
 NODE_IP, NODE_UDP, NODE_TCP = '11.22.33.44', 4444, 3333
@@ -698,6 +708,7 @@ def feed(rec, node, data, sender, origin, spec=None, single=False):
     rec.hit('tokens.' + node.tokens)
     rec.hit(f'class.{verdict}')
     ok = True
+    escaped = None
     short = data[:80].hex() + ('..' if len(data) > 80 else '')
 
     def report(key, what, witness):
@@ -716,10 +727,12 @@ def feed(rec, node, data, sender, origin, spec=None, single=False):
             sp = spec if spec is not None else (spec_of(data) if len(data) <= 8192 else None)
             if sp is not None:
                 cand = {'fam': 'single', 'node': node.cfg, 'sender': sender, 'dg': sp, 'origin': origin}
+        # a failure of the pure decode step depends on the datagram alone: no reproduction run needed
+        pure = bool(hang) or (escaped is not None and real_exc is not None and type(escaped) is type(real_exc))
         if single:
             rec.violation(key, what, w)
         else:
-            _PENDING.append((key, what, w, cand))   # emitted by flush_pending() once this batch's node is closed
+            _PENDING.append((key, what, w, cand, pure))   # emitted by flush_pending() once this batch's node is closed
 
     # ---- "is dropped": the handler has to RETURN.  A datagram on which the decoder provably never returns is fed to
     # the node itself only once per process (it costs the full watchdog time); the handler calls the same decoder first.
@@ -729,8 +742,8 @@ def feed(rec, node, data, sender, origin, spec=None, single=False):
         if (_HANG_FED[0] < 1 or single) and not _IN_REPRO[0]:
             _HANG_FED[0] += 1
             node.tick()
-            st, val = call_with_watchdog(lambda: node.proto.datagram_received(data, addr), 1.5)
-            fed = {'ok': 'returned', 'raised': f'raised {type(val).__name__}', 'timeout': 'did not return within 1.5 s'}[st]
+            st, val = call_with_watchdog(lambda: node.proto.datagram_received(data, addr), 1.0)
+            fed = {'ok': 'returned', 'raised': f'raised {type(val).__name__}', 'timeout': 'did not return within 1 s'}[st]
             node._snap = None
             where = lbry_frame(val)[0] if st == 'timeout' else '?'
             rec.hit('hang.fed_to_handler')
@@ -757,11 +770,18 @@ def feed(rec, node, data, sender, origin, spec=None, single=False):
     st, val = call_with_watchdog(lambda: node.proto.datagram_received(data, addr), 10.0)
     escaped = val if st == 'raised' else None
     if st == 'timeout':
+        # the decoder alone terminates (checked above), so this would be a loop in the handler itself; a 10 s stall can
+        # also be machine load, therefore it is judged only if a second attempt does not return within 60 s either
         fn, where = lbry_frame(val)
-        report(f'C17/hang/no-return@{fn}', f'datagram_received did not return within 10 s for a {len(data)}-byte datagram '
-                                           f'[{reason}; {origin}] {short} (interrupted at {where})',
-               {'clause': 'N3', 'interrupted_at': where})
+        st2, val2 = call_with_watchdog(lambda: node.proto.datagram_received(data, addr), 60.0)
         node._snap = None
+        if st2 == 'timeout':
+            fn2, where2 = lbry_frame(val2)
+            report(f'C17/hang/no-return@{fn2}', f'datagram_received did not return within 10 s and again within 60 s for a '
+                                                f'{len(data)}-byte datagram [{reason}; {origin}] {short} (interrupted at {where}, {where2})',
+                   {'clause': 'N3', 'interrupted_at': [where, where2]})
+        else:
+            rec.log('handler_slower_than_10s_but_returned_on_second_attempt')
         return ok
     node._snap = None
     after = node.snap()
@@ -855,10 +875,10 @@ def flush_pending(rec):
     """emit the violations of a finished batch; each gets a single-datagram replay case when the datagram alone,
     on a fresh node, produces the same mechanism key (otherwise the replay file holds the whole batch)"""
     items, _PENDING[:] = list(_PENDING), []
-    for key, what, w, cand in items:
+    for key, what, w, cand, pure in items:
         case = None
         if cand is not None:
-            if _reproduces(cand, key):
+            if pure or _reproduces(cand, key):
                 case = cand
             else:
                 w['note'] = 'did not reproduce on a fresh node with this datagram alone; the replay file holds the whole batch'
